@@ -44,7 +44,7 @@ def probe (size : UInt64) (kind arg : String) : Option String :=
     | "past" => some (if protAt L calls [] (L.userOff + size) == .none then sig else ok)
     | "pastw" => some (if protAt L calls [] (L.userOff + size) != .rw then sig else ok)
     | "last" => some ok
-    | "canary" => some sig                                  -- any altered canary byte: sodium_free raises
+    | "canary" | "canary.ign" | "canary.hdl" => some sig    -- any altered canary byte: sodium_free raises SIGSEGV and then aborts, whatever the SIGSEGV disposition
     | "before" => do
       let i ← arg.toNat?
       let off := L.userOff - 17 - UInt64.ofNat i
